@@ -23,7 +23,7 @@ def loader_obligations(prop):
     obs = []
     for k, nm in KINDS.items():
         obs.append(dict(id="%s.deser.%s" % (prop, nm), prop=prop, harness=LOADER, entry="h_deser", annotate=LANN,
-                        defines={"VERIF_KIND": k}, enforce="nvm_deserialize", replace=LREPL, loops=True, unwind="auto",
+                        defines={"VERIF_KIND": k}, enforce="nvm_deserialize", replace=LREPL, loops=True, unwind=5,
                         object_bits=10, strength="X", timeout=1500, mem_gb=10, weight=100,
                         functions=["nvm_deserialize", "le_read_u32", "le_read_u16", "nvm_validate_header"],
                         must_have=[r"nvm_deserialize\.postcondition", r"loop_invariant_step", r"decreases",
@@ -48,7 +48,7 @@ STEP_CFG = {
     "MUL": dict(checks=NO_SOVF, defs={"VERIF_ARR_CAP": 2}, bound="array operands: capacity <= 2"),
     "DIV": dict(defs={"VERIF_ARR_CAP": 2}, bound="array operands: capacity <= 2"),
     "NEG": dict(checks=NO_SOVF),
-    "CAST_INT": dict(checks=NO_SOVF + ["--no-float-overflow-check"]), "CAST_FLOAT": dict(checks=NO_SOVF),
+    "CAST_INT": dict(checks=NO_SOVF), "CAST_FLOAT": dict(checks=NO_SOVF),
     "ARR_REMOVE": dict(defs={"VERIF_ARR_CAP": 8}, bound="array capacity <= 8"),
     "ARR_SLICE": dict(defs={"VERIF_ARR_CAP": 8}, bound="array capacity <= 8"),
     "ARR_LITERAL": dict(defs={"VERIF_COUNT_MAX": 4}, bound="count operand <= 4"),
@@ -85,6 +85,26 @@ def step_obligations(prop="C13"):
             o["strength"] = "B(%s)" % cfg["bound"]
         if op in ("STR_FROM_INT", "STR_FROM_FLOAT", "CAST_STRING", "STR_CONCAT", "PUSH_STR"):
             o["unwind"] = 30     # fnv1a / memcmp over strings of <= 24 characters
+        if op in ("JMP", "JMP_TRUE", "JMP_FALSE", "MATCH_TAG"):
+            # case split over sample targets (function start, next instruction, middle, function end)
+            import copy
+            nxt = 8 + {"JMP": 5, "JMP_TRUE": 5, "JMP_FALSE": 5, "MATCH_TAG": 7}[op]
+            for t in (3, nxt, 20, 33):
+                c = copy.deepcopy(o)
+                c["id"] += ".t%d" % t
+                c["defines"]["VERIF_TARGET"] = t
+                c["strength"] = "B(jump target pinned to one of {3, next, 20, 33} of a function [3,33))"
+                obs.append(c)
+            continue
+        if op == "RET":
+            import copy
+            for t in (3, 13, 33):
+                c = copy.deepcopy(o)
+                c["id"] += ".r%d" % t
+                c["defines"]["VERIF_RETIP"] = t
+                c["strength"] = "B(returning frame <= 3 slots; return_ip pinned to one of {3, 13, 33})"
+                obs.append(c)
+            continue
         obs.append(o)
     return obs
 
@@ -92,17 +112,17 @@ def step_obligations(prop="C13"):
 def obligations(repo):
     obs = loader_obligations("C13") + step_obligations()
     obs.append(dict(id="C13.verify.structure", prop="C13", harness=VER, entry="h_structure", annotate=VANN,
-                    enforce="verify_structure", loops=True, unwind="auto", strength="U", functions=["verify_structure"],
+                    enforce="verify_structure", loops=True, unwind=5, strength="U", functions=["verify_structure"],
                     must_have=[r"verify_structure\.postcondition", r"loop_invariant_step", r"decreases"], min_checks=20))
     for part in ["DECODE", "JMP", "MATCH", "CALL", "STR", "EXTERN", "LOCAL"]:
         obs.append(dict(id="C13.verify.function." + part.lower(), prop="C13", harness=VER, entry="h_function", annotate=VANN,
                         defines={"VERIF_IOK": "IOK_" + part},
-                        enforce="verify_function", replace=["isa_decode", "isa_get_info"], loops=True, unwind="auto", strength="U",
+                        enforce="verify_function", replace=["isa_decode", "isa_get_info"], loops=True, unwind=5, strength="U",
                         functions=["verify_function"], timeout=1200, weight=20,
                         must_have=[r"verify_function\.postcondition", r"loop_invariant_step", r"decreases", r"isa_decode\.precondition"],
                         min_checks=20))
     obs.append(dict(id="C13.verify.top", prop="C13", harness=VER, entry="h_verify", annotate=VANN, defines={"VERIF_VIEW_CALLER": 1},
-                    enforce="nvm_verify", replace=["verify_structure", "verify_function"], loops=True, unwind="auto", strength="U",
+                    enforce="nvm_verify", replace=["verify_structure", "verify_function"], loops=True, unwind=5, strength="U",
                     functions=["nvm_verify"],
                     must_have=[r"nvm_verify\.postcondition", r"loop_invariant_step", r"verify_function\.precondition"], min_checks=20))
     return obs
